@@ -89,10 +89,11 @@ TSweep == /\ stage = "run" /\ w.pc = "sweep" /\ WillSweep
 TDone == /\ stage = "run" /\ w.pc = "done" /\ stage' = "out" /\ UNCHANGED <<l, e, w, rc, tid, prevcls>>
 
 \* out.pair: 0 = first run of a (E, E shifted by one direction bin) pair, 1 = second run, 2 = unpaired
-CurCls == IF w.pc = "const" THEN {} ELSE ClassesShift(w.st.imo, 0)
+AllOne == {{<<n % NK, n \div NK>> : n \in Px}}
+CurCls == IF w.pc = "const" THEN AllOne ELSE ClassesShift(w.st.imo, 0)
 TOut == /\ stage = "out"
         /\ IF Ev(l) # "out" THEN Reject("out-expected")
-           ELSE IF w.pc = "const" /\ ~([n \in Px |-> TraceLog[l].p[n+1]] = [n \in Px |-> 0] /\ TraceLog[l].np = 0)
+           ELSE IF w.pc = "const" /\ ~([n \in Px |-> TraceLog[l].p[n+1]] = [n \in Px |-> 1] /\ TraceLog[l].np = 1)
            THEN Reject("const-output")
            ELSE IF w.pc # "const" /\ ([n \in Px |-> TraceLog[l].p[n+1]] # OutC(w.st.imo) \/ TraceLog[l].np # w.st.lab)
            THEN Reject("output")
@@ -102,7 +103,7 @@ TOut == /\ stage = "out"
            THEN Reject("C04-shift-equivariance")
            ELSE /\ Accept /\ l' = l + 1 /\ stage' = "idle" /\ UNCHANGED <<e, w, rc, tid>>
                 /\ prevcls' = IF TraceLog[l].pair = 0
-                              THEN (IF w.pc = "const" THEN {} ELSE ClassesShift(w.st.imo, NTH - 1))
+                              THEN (IF w.pc = "const" THEN AllOne ELSE ClassesShift(w.st.imo, NTH - 1))
                               ELSE {}
 
 \* an event where none is expected (e.g. the code ran more sweeps or levels than the spec)
